@@ -23,8 +23,8 @@ import (
 	"mosn.io/mosn/pkg/protocol/xprotocol"
 	"mosn.io/mosn/pkg/protocol/xprotocol/bolt"
 	"mosn.io/mosn/pkg/server"
-	"mosn.io/mosn/pkg/types"
 	xstream "mosn.io/mosn/pkg/stream/xprotocol"
+	"mosn.io/mosn/pkg/types"
 	_ "mosn.io/mosn/pkg/upstream/cluster"
 
 	. "vh/vhlib"
@@ -269,7 +269,7 @@ func c11Server(run *Run, dir string) int {
 		logPath, logLevel = "stdout", "DEBUG"
 	}
 	cfg := &v2.MOSNConfig{
-		Servers: []v2.ServerConfig{{DefaultLogPath: logPath, DefaultLogLevel: logLevel, Listeners: listeners, Routers: rcs}},
+		Servers:        []v2.ServerConfig{{DefaultLogPath: logPath, DefaultLogLevel: logLevel, Listeners: listeners, Routers: rcs}},
 		ClusterManager: v2.ClusterManagerConfig{Clusters: clusters},
 	}
 	cfg.DisableUpgrade = true // no reconfigure listener: the two-process part is out of scope here
